@@ -28,7 +28,7 @@ def main():
         w = umap.UMAP(n_epochs=5).fit(Xl[:90]); w.transform(Yl)
         out["warmfirst"] = True
     def rec(name, data, new, **kw):
-        m = umap.UMAP(random_state=seed + 11, n_epochs=kw.pop("n_epochs", 25), **kw).fit(data)
+        m = umap.UMAP(random_state=kw.pop("random_state", seed + 11), n_epochs=kw.pop("n_epochs", 25), **kw).fit(data)
         r = {"graph": hg(m.graph_), "embedding": h(m.embedding_), "n_jobs_after": m.n_jobs}
         if new is not None:
             r["transform"] = h(m.transform(new)); r["transform_again"] = h(m.transform(new))
@@ -40,6 +40,9 @@ def main():
     rec("nndescent_jobs1", Xl, Yl, n_jobs=1, force_approximation_algorithm=True, n_neighbors=10)
     rec("nndescent_jobs-1", Xl, Yl, n_jobs=-1, force_approximation_algorithm=True, n_neighbors=10)
     rec("random_init_haversine", X, Y, init="random", output_metric="haversine", n_jobs=-1)
+    # the seed 0 is an integer random_state like any other (it is falsy in Python), also as a numpy integer
+    rec("nndescent_seed0", Xl, Yl, random_state=0, n_jobs=-1, force_approximation_algorithm=True, n_neighbors=10)
+    rec("nndescent_seed_np0", Xl, None, random_state=np.int64(0), n_jobs=3, force_approximation_algorithm=True, n_neighbors=10)
     rec("densmap", X, None, densmap=True, n_jobs=-1)
     rec("pca_init", X, Y, init="pca", n_jobs=2)
     # many graph components (8 well separated clusters, small n_neighbors): the spectral initialisers lay the components out with a
